@@ -1,6 +1,7 @@
 #!/bin/bash
 # Builds the Coq development from files on disk (offline).  Full .vo build.
 set -e
-cd /verif
-export PYTHONPATH=/repo:/verif/harness PYTHONHASHSEED=0 PYTHONDONTWRITEBYTECODE=1
+cd "$(dirname "$0")"
+R="$(pwd)"
+export PYTHONPATH=/repo:$R/harness PYTHONHASHSEED=0 PYTHONDONTWRITEBYTECODE=1
 exec /venv/bin/python -u harness/check.py setup
